@@ -30,7 +30,11 @@ for log in logs:
 for (pid, n), r in sorted(res.items()):
     src = '/tmp/wt-%s/out' % pid
     k = n
-    if n >= 11:
+    if n >= 13:
+        # seventh round (ten properties): /tmp/w7m-<id>/out/mutant{1,2} become <id>-13 and <id>-14
+        src = '/tmp/w7m-%s/out' % pid
+        k = n - 12
+    elif n >= 11:
         # sixth round: /tmp/w6m-<id>/out/mutant{1,2} become <id>-11 and <id>-12
         src = '/tmp/w6m-%s/out' % pid
         k = n - 10
